@@ -195,6 +195,13 @@ def pick_delta(rng, table, tr):
 
 
 def pick_rep(rng, table, i, have_zoneinfo):
+    if rng.random() < 0.2:
+        # through a bundled source store (ModifiedTimeSource / LiteralSource hand the datetime on as it is)
+        return [rng.choice(["mts", "lits"]), pick_rep0(rng, table, i, have_zoneinfo)]
+    return pick_rep0(rng, table, i, have_zoneinfo)
+
+
+def pick_rep0(rng, table, i, have_zoneinfo):
     r = rng.random()
     if r < 0.34:
         return ["nl"]
